@@ -15,7 +15,7 @@ from dataclasses import dataclass, field, replace
 from typing import Any
 
 from .model import Cls, Func, Model, Module, dotted, unparse
-from .terms import EMPTY, FALSE, NONE, TRUE, Term, alpha_normalise, alpha_normalise_bound, bound_vars, const, has_unknown, is_term, subst, unknown, var
+from .terms import subterms, EMPTY, FALSE, NONE, TRUE, Term, alpha_normalise, alpha_normalise_bound, bound_vars, const, has_unknown, is_term, subst, unknown, var
 
 SET_METHODS = {
     "union": "union",
@@ -461,7 +461,24 @@ class Evaluator:
                 # `if len(X) > 1: for a, b in combinations(X, 2): ...`: when the test fails the loop has nothing to visit
                 return self.exec_for(st.body[0], state, func)
             outs = []
+            tests = []
             for s, c in self.eval(st.test, state, func):
+                if any(x[0] == "bottom" for x in subterms(c)):
+                    # the test itself can raise: those cases leave the statement by the exception, the others go on without them
+                    pc, found = self._split_bottoms(c)
+                    for cx, exc in found:
+                        s_r = s
+                        for x in cx:
+                            s_r = s_r.assume(self.as_cond(x))
+                        outs.append((s_r, "raise", exc, line))
+                        s = s.assume(self.negate(self.mk_bool("and", [self.as_cond(x) for x in cx]))) if cx else None
+                        if s is None:
+                            break
+                    if s is None or pc is None:
+                        continue
+                    c = pc
+                tests.append((s, c))
+            for s, c in tests:
                 c = self.as_cond(c)
                 if c == TRUE:
                     outs.extend(self.exec_block(st.body, s, func))
@@ -1379,6 +1396,42 @@ class Evaluator:
                 res = ("ite", c, v, res)
         return res if res is not None else unknown("no-paths")
 
+    _BOOLISH = ("in", "eq", "ne", "not", "and", "or", "isinstance", "truth", "any", "all", "lt", "le", "subset", "psubset", "isnone", "disjoint")
+
+    def _evals_short_circuit(self, e: ast.BoolOp, state: State, func: Func, finished: list) -> list:
+        """Operands of `a and b` / `a or b`, left to right.  An operand whose evaluation forks (an inlined callee with a raising path, a case
+        distinction) is evaluated only on the inputs that reach it -- the earlier operands all true (all false for `or`) --; the inputs that do
+        not reach it are finished with the value the earlier operands decide.  (Operands that evaluate to one term are combined as before.)"""
+        is_and = isinstance(e.op, ast.And)
+        work = [(state, [])]
+        for ve in e.values:
+            nxt = []
+            for s, acc in work:
+                res = self.eval(ve, s, func)
+                if len(res) == 1 and res[0][1][0] != "bottom":
+                    nxt.append((res[0][0], acc + [res[0][1]]))
+                    continue
+                boolish = all(a[0] in self._BOOLISH or a in (TRUE, FALSE) or self.typeof(a) == "bool" for a in acc)
+                if acc and boolish:
+                    pre = self.mk_bool("and" if is_and else "or", [self.as_cond(a) for a in acc])
+                    reach = pre if is_and else self.negate(pre)
+                    if reach != TRUE:
+                        s_skip = s.assume(self.negate(reach))
+                        if reach != FALSE and not self.infeasible(s_skip.conds):
+                            finished.append((s_skip, FALSE if is_and else TRUE))
+                        elif reach == FALSE:
+                            finished.append((s, FALSE if is_and else TRUE))
+                            continue
+                        s_r = s.assume(reach)
+                        if self.infeasible(s_r.conds):
+                            continue
+                        res = self.eval(ve, s_r, func)
+                    acc = []
+                for s2, v in res:
+                    nxt.append((s2, acc + [v]))
+            work = nxt
+        return work
+
     def _evals(self, es: list[ast.expr], state: State, func: Func) -> list[tuple[State, list[Term]]]:
         outs = [(state, [])]
         for e in es:
@@ -1417,7 +1470,9 @@ class Evaluator:
         if isinstance(e, ast.UnaryOp):
             outs = []
             for s, v in self.eval(e.operand, state, func):
-                if isinstance(e.op, ast.Not):
+                if v[0] == "bottom":
+                    outs.append((s, v))
+                elif isinstance(e.op, ast.Not):
                     outs.append((s, self.negate(self.as_cond(v))))
                 elif isinstance(e.op, ast.USub) and v[0] == "const" and isinstance(v[1], (int, float)):
                     outs.append((s, const(-v[1])))
@@ -1427,8 +1482,17 @@ class Evaluator:
             return outs
         if isinstance(e, ast.BoolOp):
             outs = []
-            for s, vals in self._evals(e.values, state, func):
+            for s, vals in self._evals_short_circuit(e, state, func, outs):
                 h = "and" if isinstance(e.op, ast.And) else "or"
+                if any(v[0] == "bottom" for v in vals):
+                    # `a and b` where b raises: raises exactly when a holds (and, for `or`, when a does not)
+                    k = next(i for i, v in enumerate(vals) if v[0] == "bottom")
+                    res = vals[k]
+                    for v in reversed(vals[:k]):
+                        cv = self.as_cond(v)
+                        res = ("ite", cv, res, FALSE) if h == "and" else ("ite", cv, TRUE, res)
+                    outs.append((s, res))
+                    continue
                 # value-level `x or default`
                 if h == "or" and len(vals) == 2 and self.typeof(vals[0]) != "bool" and vals[0][0] not in (
                     "in", "eq", "ne", "not", "and", "or", "isinstance", "truth", "any", "all", "lt", "le", "subset", "psubset", "isnone"):
@@ -1487,7 +1551,7 @@ class Evaluator:
                 if it_i[0] == "bottom":
                     outs.append((s_i, it_i))
                 else:
-                    outs.append((s_i, self.eval_comp(e, s_i, func, first_iter=it_i)))
+                    outs.extend(self._lift_comp_raises(s_i, self.eval_comp(e, s_i, func, first_iter=it_i)))
             return outs
         if isinstance(e, ast.Subscript):
             outs = []
@@ -1969,6 +2033,117 @@ class Evaluator:
         return ("isnone", x)
 
     # -------------------------------------------------------------- comprehensions
+    _BINDERS = ("comp", "lam", "accum", "any", "all", "forall-not", "iter-elem", "after-iteration", "bigunion")
+
+    def _split_bottoms(self, t: Term, ctx: tuple = ()) -> tuple:
+        """(the term with its raising branches cut off -- None when it always raises --, [(conditions, exception), ...]): the case distinctions of
+        `t` that end in a raise, each with the conditions (in evaluation order: `a and b` reaches b only when a holds) under which it is reached."""
+        if not is_term(t):
+            return t, []
+        h = t[0]
+        if h == "bottom":
+            return None, [(ctx, t[1])]
+        if h in self._BINDERS or h in ("const", "var", "ref", "external", "global"):
+            return t, []
+        if h == "ite":
+            pc, lc = self._split_bottoms(t[1], ctx)
+            if pc is None:
+                return None, lc
+            pa, la = self._split_bottoms(t[2], ctx + (pc,))
+            pb, lb = self._split_bottoms(t[3], ctx + (self.negate(pc),))
+            found = lc + la + lb
+            if pa is None and pb is None:
+                return None, found
+            if pa is None:
+                return pb, found
+            if pb is None:
+                return pa, found
+            return (("ite", pc, pa, pb) if found else t), found
+        if h in ("and", "or"):
+            parts, found = [], []
+            c2 = ctx
+            for x in t[1:]:
+                px, lx = self._split_bottoms(x, c2)
+                found += lx
+                if px is None:
+                    # everything after it is never reached on that path; the operator's value is decided by what came before
+                    break
+                parts.append(px)
+                c2 = c2 + ((px if h == "and" else self.negate(px)),)
+            if not found:
+                return t, []
+            if not parts:
+                return None, found
+            return (self.mk_bool(h, parts) if len(parts) > 1 else parts[0]), found
+        found = []
+        new = [h]
+        changed = False
+        for x in t[1:]:
+            if is_term(x):
+                px, lx = self._split_bottoms(x, ctx)
+                found += lx
+                if px is None:
+                    return None, found
+                changed = changed or px is not x
+                new.append(px)
+            elif isinstance(x, tuple) and x and all(is_term(y) for y in x):
+                ys = []
+                for y in x:
+                    py, ly = self._split_bottoms(y, ctx)
+                    found += ly
+                    if py is None:
+                        return None, found
+                    ys.append(py)
+                new.append(tuple(ys))
+            else:
+                new.append(x)
+        return (tuple(new) if found else t), found
+
+    def _lift_comp_raises(self, state: State, c: Term):
+        """A list / set / dict comprehension whose filter or element can raise for some element raises itself (it is built eagerly): the raise
+        becomes a path of its own -- "for some element ..." -- exactly like the exit path of the loop that builds the same collection."""
+        if not (is_term(c) and c[0] == "comp" and c[1] in ("list", "set", "dict") and c[3]) or (isinstance(c[2], tuple) and c[2] and c[2][0] == "%payload"):
+            return [(state, c)]
+        if not any(s_[0] == "bottom" for s_ in subterms(c)):
+            return [(state, c)]
+        gens = list(c[3])
+        prefix: list = []   # the conditions binding the elements up to the point reached
+        raises: list = []   # (conds describing one raising element, exception)
+        new_gens = []
+        for pat, it, conds in gens:
+            if any(s_[0] == "bottom" for s_ in subterms(it)):
+                return [(state, c)]
+            prefix.append(("iter-elem", pat, it))
+            kept = []
+            for cd in conds:
+                pc, found = self._split_bottoms(cd)
+                for cx, exc in found:
+                    raises.append((tuple(prefix) + tuple(cx), exc))
+                if pc is None:
+                    pc = FALSE
+                kept.append(pc)
+                prefix.append(pc)
+            new_gens.append((pat, it, tuple(kept)))
+        elt = c[2]
+        pe, found = self._split_bottoms(elt)
+        for cx, exc in found:
+            raises.append((tuple(prefix) + tuple(cx), exc))
+        if not raises:
+            return [(state, c)]
+        if pe is None:
+            pe = unknown("comprehension element always raises")
+        outs = []
+        normal = state.fork()
+        for cs, exc in raises:
+            s2 = state.fork()
+            for x in cs:
+                s2 = s2.assume(x)
+            outs.append((s2, ("bottom", exc)))
+            first = cs[0]
+            normal.conds = normal.conds + (("forall-not", first[1], first[2], tuple(cs[1:])),)
+        outs.append((normal, ("comp", c[1], pe, tuple(new_gens))))
+        return outs
+
     def eval_comp(self, e, state: State, func: Func, first_iter: Term | None = None) -> Term:
         kind = {ast.ListComp: "list", ast.SetComp: "set", ast.GeneratorExp: "gen", ast.DictComp: "dict"}[type(e)]
         s = state.fork()
